@@ -258,6 +258,31 @@ pub open spec fn cat_data0(q: Seq<DataWithoutzooms>, n: int) -> Seq<u8>
 { if n <= 0 { Seq::empty() } else { cat_data0(q, n - 1) + q[n - 1].1.staged() } }
 
 // =====================================================================================
+// make_zoom (closure of write_vals): the initial entry of a level in the zoom map
+// =====================================================================================
+/// TempFileBuffer::<File>::new(inmemory): ASSUMED (tfb `fresh_pair`): a fresh consumer/producer pair, nothing written yet
+#[verifier::external_body]
+pub fn level_file_new(inmemory: bool) -> (r: (LevelBuf, ZoomWriter))
+    ensures r.1.bytes().len() == 0,
+{ unimplemented!() }
+/// only `inmemory` is read
+pub struct Opts { pub inmemory: bool }
+
+fn make_zoom(size: u32, options: &Opts) -> (r: (u32, ZoomValue))
+    ensures
+        
+        r.0 == size,
+        
+        r.1.0@.len() == 0, r.1.2 matches Some(w) && w.bytes().len() == 0,
+{
+        let section_iter = vec![];
+        let (buf, write): (LevelBuf, ZoomWriter) =
+            level_file_new(options.inmemory);
+        let value = (section_iter, buf, Some(write));
+        (size, value)
+    }
+
+// =====================================================================================
 // write_chroms_without_zooms
 // =====================================================================================
 #[verifier::loop_isolation(false)]
